@@ -280,7 +280,8 @@ def run(ctx: Ctx) -> Result:
         "signed fixed-width results that do not fit the type, float -> fixed-width conversions out of range and "
         "non-ZeroDivisionError reference exceptions on fixed-width operations are not judged (only crash freedom)",
         "exception messages are not compared, only exception types",
-        "operands beyond the stated boundary set: +-2^100 and +-2^1024 (int), a few extra floats; no random operands",
+        "operands beyond the stated boundary set: k=53, +-2^100 and +-2^1024 (int), a few extra floats; thorough tier: "
+        "every k in 2..66; no random operands",
     ], harness_errors=herr)
 
 
